@@ -13,6 +13,8 @@ references and positive scales s1, s2 that must cancel):
  SAAM       for unit a = E(p)[:,2]-image and m in the plane model, the closed form (both copies, see C07) returns a quaternion
             proportional to the documented attitude;
  TRIAD      A v1 == w1/|w1|, A (v1 x v2)/|.| == (w1 x w2)/|.| and A^T A == I, using only |v1| = 1;
+ ARM-GUARD  (sign-domain abstract interpretation) in AQUA.estimate each of the two-armed closed forms divides only by
+            quantities that are (generically) positive under the arm's own sign condition;
  CACHE-COHERENT no estimator memoises a value derived from its re-assignable reference attributes without invalidation;
  FLOW       constructor options reach every estimate() call (shared with C07).
 Not decided: FAMC, FQA, Tilt/e-compass/am2q/acc2q exactness (chains of arctan2, sign, clip with data-dependent branches -
@@ -391,6 +393,125 @@ def run(chk, prog, tier):
     from props.c07 import flow_rule
     flow_rule(chk, prog)
     stale_cache(chk, prog)
+    if arm_guard(chk, prog, F + "aqua.py::AQUA.estimate") < 6:
+        chk.error("ARM-GUARD: fewer than 6 guarded divisors found in AQUA.estimate (two two-armed formulas confirmed by hand)")
     chk.require_count("OLEQ.fixed", 2)
     canaries(chk, prog)
     return __doc__
+
+
+# ------------------------------------------------------------------------------------------ ARM-GUARD (sign domain)
+# sign lattice: 'P' > 0 | 'G' >= 0 and zero only on a measure-zero set (sum of squares of non-constant values) | 'Z+' >= 0 |
+#               'N' < 0 | 'Z-' <= 0 | 'Z' == 0 | '?' unknown
+
+def _neg(s):
+    return {"P": "N", "N": "P", "Z+": "Z-", "Z-": "Z+", "G": "Z-", "Z": "Z", "?": "?"}[s]
+
+
+def _add(a, b):
+    if a == "Z":
+        return b
+    if b == "Z":
+        return a
+    pos, neg = {"P", "G", "Z+"}, {"N", "Z-"}
+    if a in pos and b in pos:
+        if "P" in (a, b):
+            return "P"
+        return "G" if "G" in (a, b) else "Z+"
+    if a in neg and b in neg:
+        return "N" if "N" in (a, b) else "Z-"
+    return "?"
+
+
+def _mul(a, b):
+    if "Z" in (a, b):
+        return "Z"
+    if "?" in (a, b):
+        return "?"
+    pos, neg = {"P", "G", "Z+"}, {"N", "Z-"}
+    same = (a in pos) == (b in pos)
+    strict = a in ("P", "N") and b in ("P", "N")
+    generic = a in ("P", "N", "G") and b in ("P", "N", "G")
+    if same:
+        return "P" if strict else ("G" if generic else "Z+")
+    return "N" if strict else "Z-"
+
+
+def sign_of(node, env):
+    if isinstance(node, ast.Constant) and isinstance(node.value, (int, float)):
+        return "P" if node.value > 0 else ("N" if node.value < 0 else "Z")
+    if isinstance(node, ast.Name):
+        return env.get(node.id, "?")
+    if isinstance(node, ast.UnaryOp) and isinstance(node.op, ast.USub):
+        return _neg(sign_of(node.operand, env))
+    if isinstance(node, ast.BinOp):
+        a, b = sign_of(node.left, env), sign_of(node.right, env)
+        if isinstance(node.op, ast.Add):
+            return _add(a, b)
+        if isinstance(node.op, ast.Sub):
+            return _add(a, _neg(b))
+        if isinstance(node.op, ast.Mult):
+            return _mul(a, b)
+        if isinstance(node.op, ast.Div):
+            return _mul(a, b) if b in ("P", "N", "G") else "?"
+        if isinstance(node.op, ast.Pow) and isinstance(node.right, ast.Constant) and isinstance(node.right.value, int) and node.right.value % 2 == 0:
+            return "Z" if a == "Z" else ("P" if a in ("P", "N") else "G")       # square of a non-constant value: zero only on a null set
+    if isinstance(node, ast.Call):
+        t = ast.unparse(node.func)
+        if t in ("np.sqrt", "abs", "np.abs") and node.args:
+            a = sign_of(node.args[0], env)
+            if t == "np.sqrt":
+                return a if a in ("P", "G", "Z+", "Z") else "?"
+            return "Z" if a == "Z" else ("P" if a in ("P", "N") else ("G" if a in ("G",) else "Z+"))
+    return "?"
+
+
+def arm_guard(chk, prog, ref):
+    """two-armed formulas selected by a sign test: every divisor of each arm is provably (generically) positive under that arm's condition"""
+    f = prog.func(ref)
+    chk.touch(f)
+    n = 0
+
+    def divisors(stmts):
+        out = []
+        for s in stmts:
+            for x in ast.walk(s):
+                if isinstance(x, ast.BinOp) and isinstance(x.op, ast.Div):
+                    out.append(x.right)
+        return out
+
+    def walk(stmts, env):
+        nonlocal n
+        env = dict(env)
+        for s in stmts:
+            if isinstance(s, ast.Assign) and len(s.targets) == 1 and isinstance(s.targets[0], ast.Name):
+                env[s.targets[0].id] = sign_of(s.value, env)
+            elif isinstance(s, ast.If) and s.orelse and isinstance(s.test, ast.Compare) and isinstance(s.test.left, ast.Name) and len(s.test.ops) == 1 \
+                    and isinstance(s.test.comparators[0], ast.Constant) and s.test.comparators[0].value == 0:
+                var, op = s.test.left.id, type(s.test.ops[0])
+                t_sign = {ast.GtE: "Z+", ast.Gt: "P", ast.Lt: "N", ast.LtE: "Z-"}.get(op)
+                f_sign = {ast.GtE: "N", ast.Gt: "Z-", ast.Lt: "Z+", ast.LtE: "P"}.get(op)
+                tgt_t = {t.id for x in s.body if isinstance(x, ast.Assign) for t in x.targets if isinstance(t, ast.Name)}
+                tgt_f = {t.id for x in s.orelse if isinstance(x, ast.Assign) for t in x.targets if isinstance(t, ast.Name)}
+                if t_sign and tgt_t and tgt_t == tgt_f:          # alternative formulas for the same value
+                    for arm, body, sg in (("true", s.body, t_sign), ("false", s.orelse, f_sign)):
+                        e2 = dict(env)
+                        e2[var] = sg
+                        for d in divisors(body):
+                            n += 1
+                            sd = sign_of(d, e2)
+                            site = "%s::if %s [%s arm] / %s" % (ref, ast.unparse(s.test), arm, ast.unparse(d))
+                            if sd in ("P", "G"):
+                                chk.record("ARM-GUARD", site, "divisor is (generically) positive under the arm's condition")
+                            else:
+                                chk.record("ARM-GUARD", site, "divisor provably positive under the arm's condition", verdict="VIOLATION")
+                                chk.finding("ARM-GUARD", f.module.rel, f.qname, "if %s [%s arm]: divisor %s" % (ast.unparse(s.test), arm, ast.unparse(d)),
+                                            "the branch condition `%s` does not make the divisor `%s` non-zero (sign analysis: %s): the arm that should avoid the singular pose is selected by the wrong quantity" % (
+                                                ast.unparse(s.test), ast.unparse(d), sd), line=d.lineno)
+                walk(s.body, env)
+                walk(s.orelse, env)
+            elif isinstance(s, (ast.If, ast.For, ast.While, ast.With)):
+                walk(getattr(s, "body", []), env)
+                walk(getattr(s, "orelse", []), env)
+    walk(f.body(), {})
+    return n
